@@ -991,7 +991,8 @@ func opReferenceChangeJournal(ctx context.Context, pc *uint64, interpreter *EVMI
 		stateBytes = unmask(rawState[:], length)
 		stateBytes = stateBytes[:length]
 	} else {
-		referenceSlot := new(uint256.Int).SetBytes(keccak(interpreter, storageSlot.Bytes()))
+		slotBytes := storageSlot.Bytes32()
+		referenceSlot := new(uint256.Int).SetBytes(keccak(interpreter, slotBytes[:]))
 		for i := uint64(0); i < u64Ceiling(length, 32); i++ {
 			offset := referenceSlot.Add(referenceSlot, one).Bytes32()
 			currentRawState := interpreter.evm.StateDB.GetState(contract, offset)
